@@ -32,7 +32,7 @@ import tempfile
 import numpy as np
 
 from mc import gen, interp, parseback
-from mc.checks.c08 import build_recipe, skeleton
+from mc.checks.c08 import build_recipe, skeleton, twin_constant_programs
 from mc.harness import add_violation, bump, new_part, quiet, setup_repo_import
 
 PROPERTY = "C05"
@@ -225,6 +225,7 @@ def lattice_programs():
     progs += [ux, ("downcast", ux), ("downcast", ("add", ("multiply", ux, uy), ux)), ("downcast", ("multiply", ("add", ux, uy), ("subtract", ux, uy))), ("downcast", ("sqrt", ("add", ("multiply", ux, ux), ("multiply", uy, uy)))),
               ("add", ("downcast", ("multiply", ux, uy)), x), ("upcast", ("add", x, y)), ("is_finite", x), ("select", ("is_finite", s), s, x), ("round", x)]
     progs += named_reference_programs()
+    progs += twin_constant_programs()
     seen, out = set(), []
     for r in progs:
         if r not in seen:
@@ -642,6 +643,7 @@ def make_graph(fa, target_name, recipe, tx, ty, simplify=True):
 def w_lattice(task):
     fa = setup_repo_import()
     part = new_part()
+    TWINS = set(twin_constant_programs())
     progs = lattice_programs()[task["lo"]::task["stride"]]
     workdir = tempfile.mkdtemp(prefix="c05_", dir="/var/tmp")
     try:
@@ -665,6 +667,15 @@ def w_lattice(task):
                             g = None
                     if g is not None:
                         judge_numpy(fa, part, g, label + f" [numpy {dt}, simplify={simplify}]", dict(case, target="numpy", dt=dt), [getattr(np, dt)] * 2)
+                    if recipe in TWINS and dt == "float32":
+                        for tx_, ty_ in (("float64", "float32"), ("float32", "float64")):
+                            with quiet():
+                                try:
+                                    g = make_graph(fa, "numpy", recipe, tx_, ty_, simplify)
+                                except Exception:
+                                    g = None
+                            if g is not None:
+                                judge_numpy(fa, part, g, label + f" [numpy x:{tx_} y:{ty_}, simplify={simplify}]", dict(case, target="numpy", dt=tx_, dty=ty_), [getattr(np, tx_), getattr(np, ty_)])
                     with quiet():
                         try:
                             g = make_graph(fa, "cpp", recipe, dt, dt, simplify)
@@ -826,11 +837,11 @@ def replay(case):
                 if tgt == "python":
                     g = make_graph(fa, "python", recipe, "float", "float", case["simplify"])
                 else:
-                    g = make_graph(fa, tgt, recipe, case["dt"], case["dt"], case["simplify"])
+                    g = make_graph(fa, tgt, recipe, case["dt"], case.get("dty", case["dt"]), case["simplify"])
             if tgt == "python":
                 judge_python(fa, part, g, label, case)
             elif tgt == "numpy":
-                judge_numpy(fa, part, g, label, case, [getattr(np, case["dt"])] * 2)
+                judge_numpy(fa, part, g, label, case, [getattr(np, case["dt"]), getattr(np, case.get("dty", case["dt"]))])
             else:
                 judge_cpp_batch(fa, part, [(g, label, case, [getattr(np, case["dt"])] * 2)], workdir, "replay")
         finally:
